@@ -11,7 +11,7 @@ def decode(p):
 
 
 SPEC = dict(
-    lean_modules=["Ecal.Props.C04", "Ecal.Props.C04Eval", "Ecal.Props.C04Loops", "Ecal.Props.C04Program"],
+    lean_modules=["Ecal.Props.C04", "Ecal.Props.C04Eval", "Ecal.Props.C04Loops", "Ecal.Props.C04Program", "Ecal.Props.C04Spec", "Ecal.Props.C04SpecEval", "Ecal.Props.C04Examples"],
     shards=12,
     rule=("cases = marker programs (x.mark(n) appends to an ordered trace): corpus of the repaired defects; exhaustive "
           "exit kind {fallthrough, break, continue, return, raise E1, raise E2 with detail+data, raise(), runtime error} x "
@@ -42,8 +42,13 @@ META = dict(
     technique="Lean 4 theorems about the control-flow combinators the executable evaluator model calls, wiring lemmas "
               "(eval on a node of each statement kind IS the combinator over the evaluations of its children), eval-level "
               "corollaries, one composed program-level theorem + differential correspondence of the whole model with Runtime.Eval",
-    level_text=("Proof (per construct, arbitrary sub-trees and fuel; the reference semantics IS this set of equations — there is no "
-                "independent Spec.exec and no refinement theorem: spec_refinement_partial): if_first_true/if_guard_error; "
+    level_text=("Proof: (1) REFINEMENT to an independent reference semantics: Spec.exec (big-step, structured outcomes normal|brk|cont|ret|err|stop, "
+                "control signals are not errors, written from the statement of the property) over a deep syntax with abstract leaves; "
+                "refines: the evaluator's combinators on that syntax have exactly the Spec outcome and final state; eval_is_impl / "
+                "eval_refines_spec: for EVERY tree, fuel, scope and state eval is that interpretation of the statement the tree reads as "
+                "(statements, if/elif/else, condition loops, try with otherwise/finally, calls; for-in loops and everything else are leaves, "
+                "except clauses enter as whole handlers: spec_refinement_partial for those two). (2) Per construct, arbitrary sub-trees and fuel: "
+                "if_first_true/if_guard_error; "
                 "break/continue never leave the innermost loop (condition loop and for-in, at eval level; bindLoopVars raises no loop "
                 "signal); return ends the innermost call; first matching except / unhandled unchanged / a typed clause handles e iff "
                 "its type is listed (plain literals); otherwise iff no error; finally exactly once on every way out; raise fields; "
@@ -58,8 +63,10 @@ META = dict(
                 "2^53 that is the mathematical inclusive range (IEEE-754 exactness is an assumption here: Float is opaque to the Lean "
                 "kernel, NumEmbOn floatOps is not proved); for inexact fractional steps the end can be missed "
                 "(range(0, 0.3, 0.1) gives 0, 0.1, 0.2) — Go and the model agree on it, it is recorded as the reading, not as a deviation. "
-                "NOT proved (loop_range_inclusive_partial): that eval of the call expression `range(...)` inside a for-in node is the "
-                "rangeIter step (evalIdent -> callFunction -> argument evaluation) and that the block leaves the loop's range entry alone. "
+                "eval_range_step: eval of the call expression `range(...)` inside a for-in node IS the rangeIter step on the call site's entry "
+                "(hypotheses: range not shadowed; re-evaluating the arguments leaves the entry alone). NOT proved (loop_range_inclusive_partial): the "
+                "induction over the rounds joining it with loop_range_runs_rangeVals, which needs 'block, binder and arguments leave the loop's "
+                "range entry alone' as an invariant of all of eval. "
                 "break/continue DO cross a call boundary (func b() { break } called in a loop ends the loop): Go = model, generated, "
                 "not excluded by the property text. The `_wf` theorems take node shapes from C07's WellFormed; the C04 driver evaluates "
                 "WellFormed on every tree it runs. eval-level theorems keep scope creation as a hypothesis (newChild_ok shows it always holds)."),
